@@ -359,6 +359,8 @@ func runIsolation(c *ICase) (string, bool) {
 	})(h)
 	h = hlog.NewHandler(base)(h)
 	var wg sync.WaitGroup
+	respID := map[string]string{}
+	var rmu sync.Mutex
 	for _, rq := range c.Reqs {
 		wg.Add(1)
 		go func(rq Req) {
@@ -371,7 +373,11 @@ func runIsolation(c *ICase) (string, bool) {
 			r.Header.Set("Referer", rq.Referer)
 			r.Header.Set("X-Custom", rq.Custom)
 			r.Header.Set("X-Me", rq.ID)
-			h.ServeHTTP(httptest.NewRecorder(), r)
+			rr := httptest.NewRecorder()
+			h.ServeHTTP(rr, r)
+			rmu.Lock()
+			respID[rq.ID] = rr.Header().Get("X-Req-Id")
+			rmu.Unlock()
 		}(rq)
 	}
 	arrived.Wait()
@@ -419,6 +425,10 @@ func runIsolation(c *ICase) (string, bool) {
 			case "reqid":
 				if len(f["reqid"]) != 20 {
 					return fmt.Sprintf("request %s: reqid field %q in %q", rq.ID, f["reqid"], line), overlapped >= 2
+				}
+				// the id logged for a request is the id announced to that request's client
+				if respID[rq.ID] != f["reqid"] {
+					return fmt.Sprintf("request %s: logged request id %q, response header carries %q", rq.ID, f["reqid"], respID[rq.ID]), overlapped >= 2
 				}
 			case "etag", "resphdr":
 				// added when the handler returns: only the access event (logged after) may carry them
